@@ -160,20 +160,40 @@ theorem lookupSeq_spec (text : List Byte) (ix : Index) (c : Cache) (addrs : List
       ∃ lk : Look, (lookupSeq text ix c addrs)[k]? = some lk ∧ lk ≠ Look.panic ∧
         ∀ r : LookupResult, lk = Look.found r → r.symAddr ≤ a ∧ r.frames ≠ some [] := by
   induction addrs generalizing c with
-  | nil => simp [lookupSeq]
+  | nil => simp [lookupSeq, lookupSeqC]
   | cons a rest ih =>
     obtain ⟨ihl, ihk⟩ := ih (lookupC text ix c a).2
-    refine ⟨by simp [lookupSeq, ihl], ?_⟩
+    simp only [lookupSeq] at ihl ihk
+    refine ⟨by simp [lookupSeq, lookupSeqC, ihl], ?_⟩
     intro k b hk
     cases k with
     | zero =>
       simp only [List.getElem?_cons_zero, Option.some.injEq] at hk
       subst hk
-      exact ⟨(lookupC text ix c a).1, by simp [lookupSeq], lookupC_spec text ix c a hlen⟩
+      exact ⟨(lookupC text ix c a).1, by simp [lookupSeq, lookupSeqC], lookupC_spec text ix c a hlen⟩
     | succ k =>
       simp only [List.getElem?_cons_succ] at hk
       obtain ⟨lk, h1, h2⟩ := ihk k b hk
-      exact ⟨lk, by simpa [lookupSeq] using h1, h2⟩
+      exact ⟨lk, by simpa [lookupSeq, lookupSeqC] using h1, h2⟩
+
+/-- `iter_symbols()` never indexes `symbol_entries` out of range when the arrays are equally long -/
+theorem iterSymbolsC_isSome (text : List Byte) (ix : Index) (c : Cache) (l : List Nat) (i : Nat)
+    (h : i + l.length ≤ ix.entries.length) : (iterSymbolsC text ix c l i).isSome = true := by
+  induction l generalizing c i with
+  | nil => simp [iterSymbolsC]
+  | cons a rest ih =>
+    simp only [List.length_cons] at h
+    have hi : i < ix.entries.length := by omega
+    simp only [iterSymbolsC, List.getElem?_eq_getElem hi]
+    split
+    · have := ih { c with pubs := (publicInfoC text c.pubs ix.entries[i].offset ix.entries[i].len).2 } (i + 1) (by omega)
+      revert this
+      cases iterSymbolsC text ix { c with pubs := (publicInfoC text c.pubs ix.entries[i].offset ix.entries[i].len).2 } rest (i + 1) <;> simp
+    · split
+      · have := ih { c with funcs := (funcInfoC text c.funcs ix.entries[i].offset ix.entries[i].len).2 } (i + 1) (by omega)
+        revert this
+        cases iterSymbolsC text ix { c with funcs := (funcInfoC text c.funcs ix.entries[i].offset ix.entries[i].len).2 } rest (i + 1) <;> simp
+      · exact ih c (i + 1) (by omega)
 
 /-- the memo-free `BP.lookup` (C10's model) on any index with equally long symbol arrays -/
 theorem lookup_spec (text : List Byte) (ix : Index) (a : Nat)
